@@ -5,8 +5,8 @@ From RecordUpdate Require Import RecordUpdate.
 From Pipe Require Import Model.
 
 Definition f100 (x : nat) : nat := x + 100.
-Definition F_depth1 : pfacts := {| f_pending_recheck := false; f_default_depth := 1; f_poll_next_replaces_waker := true |}.
-Definition F_depth1_repaired : pfacts := {| f_pending_recheck := true; f_default_depth := 1; f_poll_next_replaces_waker := true |}.
+Definition F_depth1 : pfacts := {| f_pending_recheck := false; f_default_depth := 1; f_poll_next_replaces_waker := true; f_drop_wakes_before_dispose := true |}.
+Definition F_depth1_repaired : pfacts := {| f_pending_recheck := true; f_default_depth := 1; f_poll_next_replaces_waker := true; f_drop_wakes_before_dispose := true |}.
 
 (* run several greedy phases, each with its own priority list, each until nothing in the list is enabled *)
 Fixpoint phases (F : pfacts) (ps : list (list actor)) (s : state) : state * list actor :=
@@ -14,9 +14,9 @@ Fixpoint phases (F : pfacts) (ps : list (list actor)) (s : state) : state * list
   | [] => (s, [])
   | p :: ps => let '(s1, t1) := greedy F f100 p 300 s in let '(s2, t2) := phases F ps s1 in (s2, t1 ++ t2)
   end.
-Definition everyone : list actor := [AProd; ACons; ACPoll; AEnv; AItem; AEnd; ADispose; AExtDrop].
-Definition env_first : list actor := [AItem; AEnd; AEnv; AProd; ACons; ACPoll; ADispose; AExtDrop].
-Definition no_input_events : list actor := [AProd; ACons; AEnv; ADispose; AExtDrop].
+Definition everyone : list actor := [AProd; ACons; ACPoll; AEnv; AItem; AEnd; ADispose; AExtDrop; AExtSync].
+Definition env_first : list actor := [AItem; AEnd; AEnv; AProd; ACons; ACPoll; ADispose; AExtDrop; AExtSync].
+Definition no_input_events : list actor := [AProd; ACons; AEnv; ADispose; AExtDrop; AExtSync].
 
 (* what we look at *)
 Record view := { v_delivered : list nat; v_pending : list nat; v_end : bool; v_closed : bool; v_poll_fn : bool;
@@ -31,7 +31,7 @@ Definition view_of (s : state) : view :=
 (* (a) consumer and producer eager, input slow: every item is woken through the input's waker *)
 Example three_items_slow_input :
   let '(s, tr) := phases facts_unrepaired [everyone] (init facts_unrepaired [1;2;3] true) in
-  (s.(delivered), s.(got_end), s.(cst), terminalb facts_unrepaired f100 s, length tr) = ([101;102;103], true, CDone, true, 75).
+  (s.(delivered), s.(got_end), s.(cst), terminalb facts_unrepaired f100 s, length tr) = ([101;102;103], true, CDone, true, 79).
 Proof. vm_compute. reflexivity. Qed.
 (* (b) all input available (and ended) before the first poll job runs: one job does everything *)
 Example three_items_fast_input :
@@ -55,7 +55,7 @@ Proof. vm_compute. reflexivity. Qed.
 
 (* depth 0 (set_backpressure_depth(0), or a constant of 0) is degenerate: `pending.len() >= 0` always holds, every poll
    job parks itself at once and nothing is ever read; this is why C12.4 asks for depth >= 1 *)
-Definition F_depth0 : pfacts := {| f_pending_recheck := false; f_default_depth := 0; f_poll_next_replaces_waker := true |}.
+Definition F_depth0 : pfacts := {| f_pending_recheck := false; f_default_depth := 0; f_poll_next_replaces_waker := true; f_drop_wakes_before_dispose := true |}.
 Example depth0_never_reads :
   let '(s, tr) := phases F_depth0 [everyone] (init F_depth0 [1;2] false) in
   (s.(delivered), s.(taken), s.(cst), s.(bp), terminalb F_depth0 f100 s) = ([], [], CPend, Some 1, true).
@@ -94,23 +94,26 @@ Proof. vm_compute. reflexivity. Qed.
      ACDrop  l.465-474  drop(stream): pending cleared, closed := true, notify_stream_closed.take() = None: nothing to wake
      ACons   l.477-481  on_drop handed to REFERENCE_CHUTE; core lock released
      ACons              the PipeStream's Arc<core> is dropped
-     ADispose l.295     output_desync.take(): the strong reference to the Desync is released
+     ADispose l.295     output_desync.take(): the pipe's Arc<Desync> is dropped; it was the last one: Desync::drop starts its
+                        final sync on the disposal queue and waits for the poll job
      AProd   l.349      notify_stream_closed := Some(waker) - into a core nobody will ever look at again; return true
+     ADispose           the final sync completes: the object is freed
    Terminal with a silent input: poll_fn is still Some and the input holds a live waker: the cycle
    input -> PipeWaker -> PipeContext -> poll_fn -> input is never broken. *)
-Definition c16_witness : list actor :=
+Definition c16_witness_core : list actor :=
   [AProd; AProd; AProd; AProd; AProd; ACDrop; ACons; ACons; ADispose; AProd].
+Definition c16_witness : list actor := c16_witness_core ++ [ADispose].
 Example c16_witness_leaks :
   match run facts_unrepaired f100 (init facts_unrepaired [1] false) c16_witness with
   | Some s => (dropped s, terminal_silentb facts_unrepaired f100 s, s.(strong_held), s.(poll_fn), s.(inp_waker),
-               is_live s 0, s.(nsc), released s)
-              = (true, true, false, true, Some 0, true, Some 0, false)
+               is_live s 0, s.(nsc), released s, s.(freed))
+              = (true, true, false, true, Some 0, true, Some 0, false, 1)
   | None => False
   end.
 Proof. vm_compute. reflexivity. Qed.
 (* the drop may also land right after the `closed` test (before l.338) *)
 Definition c16_witness_early : list actor :=
-  [AProd; AProd; AProd; ACDrop; ACons; ACons; ADispose; AProd; AProd; AProd].
+  [AProd; AProd; AProd; ACDrop; ACons; ACons; ADispose; AProd; AProd; AProd; ADispose].
 Example c16_witness_early_leaks :
   match run facts_unrepaired f100 (init facts_unrepaired [1] false) c16_witness_early with
   | Some s => (dropped s, terminal_silentb facts_unrepaired f100 s, s.(poll_fn), released s) = (true, true, true, false)
@@ -119,7 +122,7 @@ Example c16_witness_early_leaks :
 Proof. vm_compute. reflexivity. Qed.
 (* with the repaired Pending arm the same schedule continues with l.148 and releases everything *)
 Example c16_witness_repaired :
-  match run facts_repaired f100 (init facts_repaired [1] false) (c16_witness ++ [AProd]) with
+  match run facts_repaired f100 (init facts_repaired [1] false) (c16_witness_core ++ [AProd; ADispose]) with
   | Some s => (dropped s, terminal_silentb facts_repaired f100 s, s.(strong_held), s.(poll_fn), released s)
               = (true, true, false, false, true)
   | None => False
@@ -135,7 +138,7 @@ Example labels_of_witness :
                   match step facts_unrepaired f100 s a with Some s' => go s' tr | None => [] end
      end) (init facts_unrepaired [1] false) c16_witness
   = [Some LNone; Some LPollFn; Some LStream; Some LStream; Some LInput; Some LStream; Some LNone; Some LNone; Some LNone;
-     Some LStream].
+     Some LStream; Some LNone].
 Proof. vm_compute. reflexivity. Qed.
 
 (* ---------- 6. spurious polls and the stale waker (C12.2 refutation witness for a poll_next that does not replace) ---------- *)
@@ -145,12 +148,12 @@ Proof. vm_compute. reflexivity. Qed.
      ACons      return Pending
      ACProbe    the real poll, waker 1 - NOT stored (notify is Some): `notify` keeps the stale waker 0
      ACons      return Pending: the consumer now sleeps on waker 1
-     AItem, AEnv x2   an item arrives; the input's waker is called; poll job 1 queued
+     AItem, AEnv x3   an item arrives; the input's waker is called; poll job 1 queued
      AProd x11  job 1: takes the item, pushes f(1), takes `notify` = waker 0 and calls it (nobody listens), input Pending
-     AEnd, AEnv x2, AProd x8   the input ends; job 2 sets closed, `notify` is None, poll_fn := None
+     AEnd, AEnv x3, AProd x8   the input ends; job 2 sets closed, `notify` is None, poll_fn := None
    Terminal: the consumer sleeps on waker 1, which nobody holds; pending = [101], closed = true. *)
 Definition stale_waker_trace : list actor :=
-  replicate 6 AProd ++ [ACPoll; ACons; ACProbe; ACons; AItem; AEnv; AEnv] ++ replicate 11 AProd ++ [AEnd; AEnv; AEnv]
+  replicate 6 AProd ++ [ACPoll; ACons; ACProbe; ACons; AItem; AEnv; AEnv; AEnv] ++ replicate 11 AProd ++ [AEnd; AEnv; AEnv; AEnv]
   ++ replicate 8 AProd.
 Example stale_waker_consumer_sleeps :
   match run facts_stale_waker f100 (init facts_stale_waker [1] true) stale_waker_trace with
@@ -170,8 +173,65 @@ Proof. vm_compute. reflexivity. Qed.
 (* a spurious poll while waiting may also find an item: the in-flight wake of the older waker is then a no-op *)
 Example probe_finds_item :
   match run facts_repaired f100 (init facts_repaired [1;2] true)
-          (replicate 6 AProd ++ [ACPoll; ACons; AItem; AEnv; AEnv] ++ replicate 7 AProd ++ [ACProbe; ACons; ACPoll; ACons; AProd]) with
+          (replicate 6 AProd ++ [ACPoll; ACons; AItem; AEnv; AEnv; AEnv] ++ replicate 7 AProd ++ [ACProbe; ACons; ACPoll; ACons; AProd]) with
   | Some s => (s.(cst), s.(delivered), s.(notify), s.(clatest), s.(cwoken), s.(running)) = (CPend, [101], Some 1, 1, false, Some (1, JLoop))
   | None => False
   end.
+Proof. vm_compute. reflexivity. Qed.
+
+(* ---------- 7. slow items: the processing future returns Pending once in the middle of an item ---------- *)
+Example slow_items_complete :
+  let '(s, tr) := phases facts_repaired [everyone] (init_slow facts_repaired [1;2;3] [2;3] true) in
+  (s.(delivered), s.(got_end), s.(cst), terminalb facts_repaired f100 s) = ([101;102;103], true, CDone, true).
+Proof. vm_compute. reflexivity. Qed.
+(* the consumer polls while item 1 is suspended (its output is not yet pushed): Pending; the job's push then wakes it *)
+Example poll_while_item_suspended :
+  match run facts_repaired f100 (init_slow facts_repaired [1] [1] true)
+          ([AItem] ++ replicate 6 AProd ++ [ACPoll; ACons] ++ replicate 2 AProd) with
+  | Some s => (s.(running), s.(pending), s.(cst), s.(cwoken), job_inflight s f100, cons_wake_inflight s)
+              = (Some (0, JWake (Some 0) KLoop), [101], CPend, false, [], true)
+  | None => False
+  end.
+Proof. vm_compute. reflexivity. Qed.
+(* the drop lands while an item is suspended: the job resumes, pushes into the dead core, sees closed in the Pending arm and
+   shuts the pipe down *)
+Example drop_while_item_suspended :
+  let '(s, tr) := phases facts_repaired [no_input_events]
+                    (match run facts_repaired f100 (init_slow facts_repaired [1] [1] false) ([AItem] ++ replicate 6 AProd ++ [ACDrop]) with
+                     | Some s => s | None => init facts_repaired [] false end) in
+  (s.(poll_fn), s.(strong_held), s.(cst), s.(freed), released s, terminal_silentb facts_repaired f100 s, s.(taken))
+  = (false, false, CGone, 1, true, true, [1]).
+Proof. vm_compute. reflexivity. Qed.
+
+(* ---------- 8. the pipe holds the LAST strong reference when the stream is dropped ---------- *)
+(* the code's order: wake notify_stream_closed, then hand on_drop to the disposal queue.  The on_drop job drops the last
+   Arc<Desync>: Desync::drop runs on the disposal queue and waits for the closing poll job; the object is freed once *)
+Example last_owner_drop_frees_once :
+  let '(s, tr) := phases facts_repaired [[AExtDrop]; [AProd]; [ACDrop]; no_input_events] (init facts_repaired [1] true) in
+  (s.(cst), s.(freed), s.(strong_held), s.(ext_owner), s.(poll_fn), released s, terminal_silentb facts_repaired f100 s)
+  = (CGone, 1, false, false, false, true, true).
+Proof. vm_compute. reflexivity. Qed.
+(* The swapped order (mutant: on_drop queued first, notify_stream_closed woken afterwards): refutation witness.
+     AExtDrop          the caller drops its handle: the pipe's Arc is the only one
+     AProd x6          poll job 0: input Pending, notify_stream_closed := waker 0, return true
+     ACDrop            Drop::drop: lock the core, closed := true, on_drop handed to REFERENCE_CHUTE, notify_stream_closed taken
+     ACons             PipeWaker::wake: context taken (l.170)
+     ACons             PipeContext::poll: target.upgrade() succeeds (l.123): the thread holds a temporary Arc<Desync>
+     ADispose          the chute runs on_drop: the pipe's Arc is dropped - not the last one, the temporary is alive
+     ACons             future_desync queues poll job 1 (l.128); `target` is dropped (l.153): it WAS the last Arc, so
+                       Desync::drop runs here, inside Drop for PipeStream, under the core lock; its sync waits for job 1
+     AProd x2          poll job 1 starts, locks poll_fn, upgrades the core ...
+   ... and blocks on the core lock (l.313).  Nobody can move: the dropping thread waits for the job, the job for the lock. *)
+Definition swapped_drop_deadlock : list actor :=
+  [AExtDrop] ++ replicate 6 AProd ++ [ACDrop; ACons; ACons; ADispose; ACons; AProd; AProd].
+Example swapped_drop_deadlocks :
+  match run facts_swapped_drop f100 (init facts_swapped_drop [1] true) swapped_drop_deadlock with
+  | Some s => (s.(cst), core_locked s, s.(cwk), s.(running), s.(freed), s.(ext_owner), terminal_silentb facts_swapped_drop f100 s)
+              = (CDrop1, true, WSync, Some (1, JFull), 0, false, true)
+  | None => False
+  end.
+Proof. vm_compute. reflexivity. Qed.
+(* with the code's order the chute cannot interfere: on_drop is not yet queued while the waker is called *)
+Example swapped_drop_schedule_impossible_with_code_order :
+  run facts_repaired f100 (init facts_repaired [1] true) (firstn 11 swapped_drop_deadlock) = None.
 Proof. vm_compute. reflexivity. Qed.
